@@ -13,6 +13,7 @@ def run(ck):
     ck.run_fixed({"waiting_component_gets_the_async_factorys_product": "C06:wait-failed",
                   "nested_tree_publications_release_waiters": "C06:wait-failed",
                   "partly_shadowed_factory_releases_its_waiter": "C06:stuck-although-published",
+                  "factory_for_an_iterable_class_releases_its_waiter": "C06:stuck-although-published",
                   "factories_waiting_on_each_other_complete": "C06:wait-failed"})
 
 
